@@ -11,7 +11,7 @@ Three layers:
   3. Search for a failing execution: scenarios with invariants that every linearizable / atomic /
      deadlock-free implementation satisfies, with race windows widened by the verifPoint hook.
 """
-import json, os, subprocess
+import json, os, subprocess, time
 import vlib
 
 
@@ -20,8 +20,38 @@ def _limit_memory():
     resource.setrlimit(resource.RLIMIT_AS, (8 << 30, 8 << 30))
 
 
-def run_scenarios(ctx, plan, label, mem_limit=False):
-    """plan: list of (scenario, rounds, widen). Returns number of runs."""
+def txprog_replay(ctx, tracef, sc, seed, rounds, widen, lines):
+    """the recorded trace must also be a trace of the PROGRAM model (Model/TxProg.lean): `driver txprog`
+    advances the model's threads through the pcs of tx.go so that they emit exactly the recorded events.
+    Returns False when a violation was recorded."""
+    bound = 30000 if ctx.tier == "quick" else 400000
+    t0 = time.time()
+    p = subprocess.run([f"{vlib.LEAN}/.lake/build/bin/driver", "txprog", tracef, str(bound)], capture_output=True, text=True, timeout=1800)
+    ctx.cov["txprog_seconds"] = round(ctx.cov.get("txprog_seconds", 0) + time.time() - t0, 2)
+    res = p.stdout.strip()
+    toks = res.split()
+    if toks[:2] == ["txprog", "ok"]:
+        kv = dict(t.split("=", 1) for t in toks[2:] if "=" in t)
+        for name, key in (("txprog_events_replayed", "events"), ("txprog_silent_steps", "silent"), ("txprog_env_events", "env"),
+                          ("txprog_oracle_hv", "oracle_hv"), ("txprog_unsupported_events", "unsupported")):
+            ctx.cov[name] = ctx.cov.get(name, 0) + int(kv.get(key, 0))
+        ctx.cov["txprog_traces"] = ctx.cov.get("txprog_traces", 0) + 1
+        return True
+    kv = dict(t.split("=", 1) for t in toks[2:] if "=" in t)
+    j = int(kv["line"]) if kv.get("line", "").isdigit() else 0
+    vlib.record_violation(ctx, "txprog-trace", {
+        "scenario": sc, "scenario_seed": seed, "rounds": rounds, "widen": widen,
+        "replay_result": res[:600] or f"the driver died (exit {p.returncode}): {p.stderr[:300]}",
+        "rejected_event": lines[j] if j < len(lines) else "", "position": j, "preceding": lines[max(0, j - 40):j],
+        "ops": [f"stress {sc} {seed} {rounds} {widen}"],
+        "explain": "the recorded trace is accepted by the protocol model but cannot be produced by the program model Model/TxProg.lean: the code of tx.go no longer does what the program model (about which prog_refines_proto is proved) says"},
+        no_input=True)
+    return False
+
+
+def run_scenarios(ctx, plan, label, mem_limit=False, txprog=False):
+    """plan: list of (scenario, rounds, widen). Returns number of runs.
+    txprog: also replay the recorded trace against the program model of tx.go (C05 / C06 / C07)."""
     h = vlib.build_harness(ctx)
     runs = 0
     events = 0
@@ -86,6 +116,8 @@ def run_scenarios(ctx, plan, label, mem_limit=False):
                     "explain": "the implementation took a step that the locking protocol model (Model/Proto.lean, about which the theorems are proved) does not allow in the state reached by the earlier steps; the scenario's own invariants held in this run"},
                     no_input=True)
                 return runs
+            if txprog and not txprog_replay(ctx, tracef, sc, seed, rounds, widen, lines):
+                return runs
             os.remove(tracef)
     ctx.cov["protocol_events_validated"] = ctx.cov.get("protocol_events_validated", 0) + events
     return runs
@@ -101,7 +133,7 @@ def replay(r):
         before = len(ctx.violations)
         plan = [(r["scenario"], r["rounds"], r["widen"])]
         ctx.seed = k
-        run_scenarios(ctx, plan, "replay")
+        run_scenarios(ctx, plan, "replay", txprog=r.get("kind") == "txprog-trace")
         if len(ctx.violations) > before:
             fails += 1
             print(open(ctx.violations[-1][0]).read()[:3000])
